@@ -8,8 +8,13 @@ SameTriBag(A, B) == SubBagTri(A, Faces(A), B, Faces(B)) /\ SubBagTri(B, Faces(B)
 SamePtSet(A, B) == {PointTuple(A, p) : p \in 0..(A.np - 1)} = {PointTuple(B, p) : p \in 0..(B.np - 1)}
 CheckA(r) == r.e = "IO" =>
    /\ r.ok
+   /\ WellFormed(r.in) /\ WellFormed(r.out)
    /\ SameAttributes(r.in, r.out)
-   /\ (IF r.mesh THEN SameTriBag(r.in, r.out) ELSE SamePtSet(r.in, r.out))
+   \* clouds: PLY stores one vertex per point, in order (coincident samples stay separate points); the OBJ reader merges points that
+   \* agree in every attribute (obj_decoder.cc deduplicates by design), so only the set of points is demanded there
+   /\ (IF r.mesh THEN SameTriBag(r.in, r.out)
+       ELSE IF r.fmt = "ply" THEN r.in.np = r.out.np /\ r.in.pt = r.out.pt
+       ELSE SamePtSet(r.in, r.out))
    /\ r.excess_e9 <= (IF r.fmt = "obj" THEN 500 ELSE 0)
 Conforms == ti <= N => CheckA(Recs[ti])
 Spec == ShardInit /\ [][ShardNext]_tvars
